@@ -25,7 +25,7 @@ ASSUMPTIONS = ["the sub-project task has only FS/SS inputs (FF/SF inputs could h
                "parent unit_time = 1", "file system replaced by the in-memory open()"]
 LEVEL_TEXT = "Seeded exploration over sub-project results, unit pairs, positions in the parent workflow and parent absences."
 LEVEL_NOTE = "Trusted: harness observers, the ceil() reference formula; sampling evidence only."
-PROBES = ["reconfigured_after_resave", "sub_result_edited_before_saving", "sub_simulated_with_unit_time", "refusal_with_explicit_path", "configured_ok", "refusal_unsimulated", "refusal_failed", "remove_abs_true", "sub_with_absence", "sub_absence_beyond_end",
+PROBES = ["parent_paused_and_restored", "reconfigured_after_resave", "sub_result_edited_before_saving", "sub_simulated_with_unit_time", "refusal_with_explicit_path", "configured_ok", "refusal_unsimulated", "refusal_failed", "remove_abs_true", "sub_with_absence", "sub_absence_beyond_end",
           "unit_ratio_gt1", "unit_ratio_lt1", "unit_ratio_non_integer", "parent_absence_during_subtask", "subtask_finished", "with_predecessor", "configured_twice", "sub_from_backward_simulation", "parent_json_roundtrip"]
 
 UNITS = [60, 120, 180, 420, 600, 1200, 3600, 86400, 129600]
@@ -83,16 +83,19 @@ def gen(rng, tier):
     if mode == "ok" and subspec.get("backward") is None and subcfg.get("unit_time", 1) == 1 and rng.random() < 0.15:
         a_ = rng.randint(0, 4)
         subspec["edit"] = rng.choice([[a_], [a_, a_ + 2], [a_ + 2, a_]])
+    if mode == "ok" and rng.random() < 0.12:
+        extra["pause_json"] = rng.randint(1, 10)
     return {**extra, "sub": subspec, "parent_json": rng.random() < 0.25, "explicit_path": mode != "ok" and rng.random() < 0.5,
             "preconfigure": preconf, "mode": mode, "model": pm, "cfg": pcfg, "ranks": G.gen_ranks(rng, pm), "profile": pp}
 
 
 def extra_candidates(spec):
     from .. import shrink
-    if spec.get("first_sub") is not None:
-        c = copy.deepcopy(spec)
-        c.pop("first_sub")
-        yield c
+    for k_ in ("first_sub", "pause_json"):
+        if spec.get(k_) is not None:
+            c = copy.deepcopy(spec)
+            c.pop(k_)
+            yield c
     if spec["sub"].get("edit"):
         c = copy.deepcopy(spec)
         c["sub"].pop("edit")
@@ -221,7 +224,27 @@ def run(spec):
         res.count("unit_ratio_non_integer")
     n_exp = int(math.ceil(exp_work * us / float(up) - 1e-9)) if exp_work > 0 else 0
     # simulate the parent
-    rec, out = scen.simulate(p, spec["cfg"])
+    rec = None
+    if spec.get("pause_json") is not None:
+        # the parent run is paused at some step, written to a file, read into a new project and continued there: the
+        # sub-project task still occupies exactly the expected number of working steps
+        rec1, out1 = scen.simulate(p, dict(spec["cfg"], max_time=spec["pause_json"]))
+        if out1.ok and int(p.status) != 1:
+            newp, ow, orr = scen.save_load(p, "mem:parentpause.json", spec.get("ranks"))
+            if newp is not None:
+                res.count("parent_paused_and_restored")
+                p = newp
+                task = [t for t in p.workflow.task_list if t.ID == "sub"][0]
+                rec2, out = scen.simulate(p, dict(spec["cfg"], init_state=False, init_log=False))
+
+                class _Joined(object):
+                    pass
+                rec = _Joined()
+                rec.steps = [s_ for s_ in rec1.steps if s_.ph.get("recorded") is not None] + list(rec2.steps)
+                rec.n_recorded = rec1.n_recorded + rec2.n_recorded
+                rec.ix = rec2.ix
+    if rec is None:
+        rec, out = scen.simulate(p, spec["cfg"])
     res.steps = rec.n_recorded
     if not out.ok:
         res.count("parent_sut_exception")
